@@ -1095,6 +1095,20 @@ def mini_exec(fn: ast.FunctionDef, args: Dict[str, object], budget: int = 2000, 
                 return l_ % r_
             except (TypeError, ZeroDivisionError):
                 raise _PathEval.Unknown("modulo on these samples")
+        if isinstance(e, ast.Call) and unparse(e.func) in ("reduce", "functools.reduce") and len(e.args) in (2, 3) and not (isinstance(e.func, ast.Name) and e.func.id in env):
+            f0_, seq_ = ev(e.args[0]), ev(e.args[1])
+            if not callable(f0_) or isinstance(f0_, (SampleObj, ClassTok)) or not isinstance(seq_, (list, tuple)):
+                raise _PathEval.Unknown("reduce over these samples")
+            it_ = list(seq_)
+            if len(e.args) == 3:
+                acc_ = ev(e.args[2])
+            elif it_:
+                acc_ = it_.pop(0)
+            else:
+                raise _Raised("TypeError: reduce() of empty sequence with no initial value")
+            for x_ in it_:
+                acc_ = f0_(acc_, x_)
+            return acc_
         if isinstance(e, ast.Call) and unparse(e.func) in ("warnings.warn", "print", "logging.warning", "logging.info", "logging.debug", "logging.error") \
                 and not (isinstance(e.func, ast.Name) and e.func.id in env):
             return None                               # reporting: nothing the result depends on
@@ -1619,8 +1633,8 @@ def mini_exec(fn: ast.FunctionDef, args: Dict[str, object], budget: int = 2000, 
                 raise _LoopCtl("continue")
             elif isinstance(st, ast.Break):
                 raise _LoopCtl("break")
-            elif isinstance(st, ast.Pass):
-                continue
+            elif isinstance(st, (ast.Pass, ast.Import, ast.ImportFrom)):
+                continue                              # (the modelled library functions are known by their dotted or bare names)
             else:
                 raise _PathEval.Unknown(f"statement {type(st).__name__} `{unparse(st)[:60]}`")
     yielded: List[object] = []
